@@ -808,8 +808,30 @@ var formPatterns = []pat{
 	{"control-legit-key", "/posted/legit"},
 }
 
+// composed patterns: leading empty segments (which the filer collapses) in front of a target
+var emptyPrefixes = []pat{{"slash", "/"}, {"2slash", "//"}, {"3slash", "///"}, {"enc-slash", "%2F"}, {"enc-2slash", "%2F%2F"}, {"slash-enc-slash", "/%2F"}, {"x-2slash", "inb//"}}
+var composedTargets = []pat{{"uploads-part", ".uploads/{IDB}/0001.part"}, {"uploads-new-part", ".uploads/{IDB}/0003.part"}, {"uploads-dir", ".uploads/{IDB}"}, {"dotdot-sibling", "../{A}/canary-a.txt"}}
+
 func buildCases(r *lib.Run) []hcase {
 	var cs []hcase
+	for _, pre := range emptyPrefixes {
+		for _, tg := range composedTargets {
+			if pre.name == "x-2slash" && strings.HasPrefix(tg.tmpl, ".uploads") {
+				continue // inb//.uploads/.. is a legitimate key below inb/
+			}
+			name := "empty-" + pre.name + "+" + tg.name
+			for _, rt := range keyRoutes {
+				cs = append(cs, hcase{Route: rt, Vector: "key", Pattern: name, Tmpl: pre.tmpl + tg.tmpl})
+			}
+			plainPre := strings.NewReplacer("%2F", "/").Replace(pre.tmpl)
+			cs = append(cs, hcase{Route: "batch-delete", Vector: "batch-key", Pattern: name, Tmpl: plainPre + tg.tmpl})
+			for _, rt := range []string{"copy-src", "part-copy-src"} {
+				cs = append(cs, hcase{Route: rt, Vector: "copy-source", Pattern: name, Tmpl: "/{B}/" + pre.tmpl + tg.tmpl})
+				cs = append(cs, hcase{Route: rt, Vector: "copy-source", Pattern: name + "-nolead", Tmpl: "{B}" + pre.tmpl + tg.tmpl})
+			}
+			cs = append(cs, hcase{Route: "post-policy", Vector: "form-key", Pattern: name, Tmpl: plainPre + tg.tmpl})
+		}
+	}
 	for _, p := range keyPatterns {
 		for _, rt := range keyRoutes {
 			cs = append(cs, hcase{Route: rt, Vector: "key", Pattern: p.name, Tmpl: p.tmpl})
